@@ -82,6 +82,11 @@ func c20Gen(c *Ctx, maxTrips int) *journal.Journal {
 		for s := 0; s < nStops; s++ {
 			q := fmt.Sprintf("%ss%d.", p, s)
 			tcount++
+			if s > 0 && c.Choose(q+"same_as_previous", 2) == 1 {
+				// a stop time repeated verbatim (every exported cell equal) is still a stop time of its own
+				t.StopTimes = append(t.StopTimes, t.StopTimes[s-1])
+				continue
+			}
 			st := journal.StopTime{
 				StopID:       []string{"L0%dN", "", "stop %d", "<S&%d>'+", "st\xe9p-%d\x80"}[c.Choose(q+"stopid", 5)],
 				LastObserved: time.Unix(int64(1700000000+1000*i+10*s+7), 0).UTC(),
@@ -314,7 +319,7 @@ func init() {
 	register(&Check{
 		ID:    "C20",
 		Level: "model_checking",
-		Rule: "journals with 0..2 (thorough 0..3) trips x 0..2 stop times per trip (full product over the counts) x k deviations (quick 2, thorough 3) over presence of track/arrival/departure/marked-past, direction (0/1/unspecified/out-of-range), id shapes (NYCT-like, empty, spaces, leading space, non-ASCII, invalid UTF-8, characters such as + & < > ' ; | \\ that are special in other formats but not in CSV), counters (negative, zero, large), zero start times, instants with sub-second parts of 0.5 s and more; journals of 7..4099 trips (around powers of two, not multiples of 8) x 4 patterns of stop times per trip; " +
+		Rule: "journals with 0..2 (thorough 0..3) trips x 0..2 stop times per trip (full product over the counts) x k deviations (quick 2, thorough 3) over presence of track/arrival/departure/marked-past, direction (0/1/unspecified/out-of-range), id shapes (NYCT-like, empty, spaces, leading space, non-ASCII, invalid UTF-8, characters such as + & < > ' ; | \\ that are special in other formats but not in CSV), counters (negative, zero, large), zero start times, instants with sub-second parts of 0.5 s and more, a stop time repeated verbatim after itself; journals of 7..4099 trips (around powers of two, not multiples of 8) x 4 patterns of stop times per trip; " +
 			"non-trivial = distinct journals with at least one trip; oracle = read back with encoding/csv by header name, cell-by-cell, journal dumped before/after",
 		Assumptions: []string{"ids and tracks are free of comma, double quote, CR and LF, as the property stipulates", "header names of the two tables are part of the observable interface"},
 		Scenarios: func(tier string) []*Scenario {
